@@ -34,7 +34,10 @@ JudgeHdc(r) ==
       coords == UNION {asSets[i] : i \in 1..nsets}
       npts   == SumSeq([i \in 1..nsets |-> Len(r.sets[i])])
       region == Cells(r.R)
-      rcomps == ComponentsOfMask(r.R, r.shape, full)   \* connected regions (= Components, HDC.tla: FastIsDef)
+      (* connected regions (= Components, HDC.tla: FastIsDef); a region that is the whole grid *)
+      (* (warn path) is one region                                                            *)
+      rcomps == IF \A c \in 1..Len(r.R) : r.R[c] = 1 THEN {1..Len(r.R)}
+                ELSE ComponentsOfMask(r.R, r.shape, full)
   IN <<
     <<"CoordsAreCellCentres", r.offgrid = 0 /\ ~r.ragged>>,
     <<"CoordsAreBoundary", coords = bdef>>,
